@@ -157,6 +157,15 @@ func (in *Interp) sprintf(fr *frame, format Value, args []Value) (Value, []Value
 	return out, wrapped
 }
 
+// nonEmptyApp builds an uninterpreted text-codec application and records
+// that its result is never the empty string (a quoted string, a decimal
+// number and a formatted date all have at least one byte).
+func (in *Interp) nonEmptyApp(name string, args ...*smt.Term) OStr {
+	t := in.ctx.App(name, smt.SeqSort, args...)
+	in.addPC(in.ctx.Not(in.ctx.Eq(t, in.ctx.SeqConst(""))))
+	return OStr{t}
+}
+
 func (in *Interp) quoteString(fr *frame, s Value) Value {
 	switch x := s.(type) {
 	case string:
@@ -164,12 +173,12 @@ func (in *Interp) quoteString(fr *frame, s Value) Value {
 	case XStr:
 		if in.inErrorf > 0 || in.prog.Params["fmt_q_opaque"] == 1 {
 			// the check does not depend on the quoted text (error messages)
-			return OStr{in.ctx.App("fmt_q", smt.SeqSort, in.seqTerm(x))}
+			return in.nonEmptyApp("fmt_q", in.seqTerm(x))
 		}
 		fn := in.prog.lookupFunc("strconv", "Quote")
 		return in.call(fr, token.NoPos, fn, []Value{x})
 	case OStr:
-		return OStr{in.ctx.App("fmt_q", smt.SeqSort, x.T)}
+		return in.nonEmptyApp("fmt_q", x.T)
 	}
 	panic(fmt.Sprintf("quoteString: %T", s))
 }
@@ -204,6 +213,12 @@ func (in *Interp) formatArg(fr *frame, verb byte, flags string, a Iface) Value {
 			// nil pointer receivers print <nil> like fmt's panic catcher
 			if p, ok := a.V.(*Value); ok && p == nil {
 				return "<nil>"
+			}
+			if in.inErrorf > 0 && in.symbolicInside(a, 4) {
+				// text of a wrapped error with symbolic content: never
+				// inspected, kept as an uninterpreted string
+				in.opaqueCount++
+				return OStr{in.ctx.Var(fmt.Sprintf("errtext!%d", in.opaqueCount), smt.SeqSort)}
 			}
 			s := in.call(fr, token.NoPos, m, []Value{a.V})
 			if verb == 'q' {
@@ -259,6 +274,11 @@ func (in *Interp) formatArg(fr *frame, verb byte, flags string, a Iface) Value {
 		}
 		if flags != "" {
 			panic(unsupported("fmt flags on a symbolic integer"))
+		}
+		if d, ok := in.pcDom[v.T]; !ok || d.hi-d.lo < 0 || d.hi-d.lo > 100000 {
+			// unbounded symbolic integer: its decimal text is an
+			// uninterpreted function of the value
+			return in.nonEmptyApp(fmt.Sprintf("fmt_itoa%d", base), in.ctx.Resize(v.T, 64, signed))
 		}
 		if signed {
 			fn := in.prog.lookupFunc("strconv", "FormatInt")
@@ -316,4 +336,36 @@ func (in *Interp) formatArg(fr *frame, verb byte, flags string, a Iface) Value {
 		return in.formatArg(fr, verb, flags, v)
 	}
 	panic(unsupported(fmt.Sprintf("fmt model: verb %%%s%c on %v (%T)", flags, verb, a.T, a.V)))
+}
+
+// symbolicInside reports whether an error value has symbolic leaves in its
+// own fields or (through pointers and interfaces) in what it wraps.
+func (in *Interp) symbolicInside(v Value, depth int) bool {
+	if depth < 0 {
+		return false
+	}
+	switch x := v.(type) {
+	case SymInt, SymBool, XStr, OStr:
+		return true
+	case Iface:
+		return in.symbolicInside(x.V, depth-1)
+	case *Value:
+		if x == nil {
+			return false
+		}
+		return in.symbolicInside(*x, depth-1)
+	case Struct:
+		for _, e := range x {
+			if in.symbolicInside(e, depth-1) {
+				return true
+			}
+		}
+	case []Value:
+		for _, e := range x {
+			if in.symbolicInside(e, depth-1) {
+				return true
+			}
+		}
+	}
+	return false
 }
